@@ -5,10 +5,15 @@
   schema, every well-formed data tree and both JSON encodings, decoding what the writer produces gives the
   tree back — names, values, order of entries and values — hence both JSON encodings decode to the same
   tree; and the reader never changes a scalar: what it hands to the type is the string, the literal of the
-  number, true/false, or "" for null.  The XML pair, the bytes layer and totality on arbitrary bytes are
-  compared / fuzzed by the correspondence streams.
+  number, true/false, or "" for null.  The same at the level of XML elements (`C19_xml_roundtrip`: one element
+  per list entry and per leaf-list value, the reader gathers the elements of one name in document order —
+  every tree whose sibling names differ and whose lists / leaf-lists are not empty comes back, for any
+  nesting depth, with the fuel the depth asks for), hence all three encodings decode to the same tree
+  (`C19_three_encodings_agree`).  The bytes layers and totality on arbitrary bytes are compared / fuzzed by
+  the correspondence streams.
 -/
 import YV.Proofs.YEnc
+import YV.Proofs.YEncX
 namespace YV.Props.C19
 open YV YV.Y YV.SC YV.D YV.E
 
@@ -45,6 +50,28 @@ theorem C19_scalar_unaltered (j : J) (v : Bytes) (h : decodeValue j = some v) :
 theorem C19_int64_exact (rfc : Bool) (v : Bytes) : decodeValue (writeValue rfc .num64 v) = some v := by
   cases rfc <;> simp [writeValue, decodeValue]
 
+/-- **C19 (round trip, XML).** -/
+theorem C19_xml_roundtrip (top : List (SN τ)) (rn : Tok) (ks : List DN) (hwf : xwfKids top ks)
+    (fuel : Nat) (hf : dDepthL ks < fuel) :
+    fromX top fuel (toX top (.mk rn ks [])) = some (.mk rn ks []) := by
+  cases fuel with
+  | zero => omega
+  | succ f =>
+    have hall := xdec_all top ks hwf f (by omega) (xencKids top ks)
+      (fun e he => by rw [xencKids_flatMap]; exact gather_blocks _ _ (blocks_of_wf top ks hwf) e he)
+    simp only [toX, fromX, DN.kids, DN.name, xdec_whole top ks f hwf hall, Option.map_some]
+
+/-- all three encodings of a tree decode to the same children, in the same order -/
+theorem C19_three_encodings_agree (kind : τ → VK) (modName : Tok) (hm : modName.contains 58 = false)
+    (top : List (SN τ)) (rn : Tok) (ks : List DN) (hj : wfKids kind top ks = true) (hx : xwfKids top ks)
+    (fuel : Nat) (hf : dDepthL ks < fuel) :
+    (fromJ top (toJ kind true modName top (.mk rn ks []))).map DN.kids = some ks ∧
+    (fromJ top (toJ kind false modName top (.mk rn ks []))).map DN.kids = some ks ∧
+    (fromX top fuel (toX top (.mk rn ks []))).map DN.kids = some ks := by
+  rw [C19_json_roundtrip kind true modName hm top rn ks hj, C19_json_roundtrip kind false modName hm top rn ks hj,
+    C19_xml_roundtrip top rn ks hx fuel hf]
+  simp [DN.kids]
+
 /-! non-vacuity: container c { leaf x (int64) ; leaf-list l (string) } with x = "9223372036854775807" -/
 def demoTop : List (SN VK) := [.container [99] false [.leaf [120] .num64 none false, .leafList [108] .other 0 none]]
 def demoData : List DN := [.mk [99] [.mk [120] [] [[57, 50, 50, 51]], .mk [108] [] [[97], [98]]] []]
@@ -53,5 +80,15 @@ example : wfKids id demoTop demoData = true := by
   rw [wfKids.eq_def]; simp only [DN.name, lookup, dataKids, SN.name, if_true]
   rw [wfKids.eq_def]; simp only [DN.name, lookup, dataKids, SN.name]
   rw [wfKids.eq_def, wfKids.eq_def]; simp [DN.name, lookup, dataKids, SN.name, validValue, wfKids]
+
+example : xwfKids demoTop demoData := by
+  unfold demoTop demoData
+  rw [xwfKids.eq_def]; simp only [DN.name, lookup, dataKids, SN.name, if_true]
+  refine ⟨by simp, ⟨trivial, ?_⟩, by rw [xwfKids.eq_def]; trivial⟩
+  rw [xwfKids.eq_def]; simp only [DN.name, lookup, dataKids, SN.name]
+  refine ⟨by simp, by simp, ?_⟩
+  rw [xwfKids.eq_def]; simp only [DN.name, lookup, dataKids, SN.name]
+  refine ⟨by simp, by simp, ?_⟩
+  rw [xwfKids.eq_def]; trivial
 
 end YV.Props.C19
